@@ -325,24 +325,40 @@ type VerifHandOver struct {
 // ApplySnapshot, SetHardState, Append) → Cluster.Recover → raftlib.RestartNode). The node it returns is
 // asked for its status and stopped; the server then gets the node built by mk on the same storage.
 // The callers check beforehand (with the non-fatal getters) that none of the logger.Fatal exits is due.
-func VerifRestartServer(wal consensus.ChainWAL, cl *Cluster, tr *VerifTransport, mk func(c *raftlib.Config, peers []raftlib.Peer) raftlib.Node) (*VerifServer, *VerifHandOver) {
+func VerifRestartServer(wal consensus.ChainWAL, cl *Cluster, tr *VerifTransport, mk func(c *raftlib.Config, peers []raftlib.Peer) raftlib.Node) (v *VerifServer, h *VerifHandOver, panicked interface{}) {
 	rs := verifServer(wal, cl, tr)
 	rs.cluster.ResetMembers()
+	h = &VerifHandOver{}
+	collect := func() {
+		h.LastIndex, h.Term, h.Identity = rs.lastIndex, rs.curTerm, cl.identity
+		if rs.raftStorage == nil {
+			return
+		}
+		h.Hard, h.Conf, _ = rs.raftStorage.InitialState()
+		h.Snap, _ = rs.raftStorage.Snapshot()
+		h.First, _ = rs.raftStorage.FirstIndex()
+		h.Last, _ = rs.raftStorage.LastIndex()
+		if h.Last >= h.First {
+			h.Ents, _ = rs.raftStorage.Entries(h.First, h.Last+1, 1<<40)
+		}
+	}
+	defer func() {
+		// etcd/raft refuses what it was handed (or replayWAL panicked): report what was handed
+		if r := recover(); r != nil {
+			panicked = r
+			collect()
+			v = nil
+		}
+	}()
 	node := rs.restartNode(false)
 	st := node.Status()
 	node.Stop()
-	h := &VerifHandOver{LastIndex: rs.lastIndex, Term: rs.curTerm, Identity: cl.identity, RaftHard: st.HardState}
-	h.Hard, h.Conf, _ = rs.raftStorage.InitialState()
-	h.Snap, _ = rs.raftStorage.Snapshot()
-	h.First, _ = rs.raftStorage.FirstIndex()
-	h.Last, _ = rs.raftStorage.LastIndex()
-	if h.Last >= h.First {
-		h.Ents, _ = rs.raftStorage.Entries(h.First, h.Last+1, 1<<40)
-	}
+	collect()
+	h.RaftHard = st.HardState
 	if mk != nil {
 		rs.setNodeSync(mk(makeConfig(rs.ID(), rs.raftStorage), nil))
 	}
-	return &VerifServer{rs: rs, T: tr}, h
+	return &VerifServer{rs: rs, T: tr}, h, nil
 }
 
 // VerifHasWal is the question startRaft asks first.
@@ -390,4 +406,32 @@ func (v *VerifServer) DrainCommitted(connect bool) []VerifCommitted {
 			return out
 		}
 	}
+}
+
+// VerifSetPending puts the cluster into the state "a membership change is in progress" (savedChange set),
+// which is the state submitProposal leaves behind until raft has dealt with the change.
+func (cl *Cluster) VerifSetPending(on bool) {
+	cl.Lock()
+	defer cl.Unlock()
+	if on {
+		cl.saveConfChangePropose(&consensus.ConfChangePropose{Cc: &raftpb.ConfChange{ID: 424242}})
+	} else {
+		cl.resetSavedConfChangePropose()
+	}
+}
+
+// VerifTransport returns the inert transport attached by VerifAttachServer.
+func (cl *Cluster) VerifTransport() *VerifTransport { return cl.rs.transport.(*VerifTransport) }
+
+// VerifStartNodeReal runs the new-cluster branch of startRaft as it is (startNode with the start
+// peers; raftlib.StartNode, a goroutine-driven node which is stopped at once). It exits the process
+// through logger.Fatal when startNode refuses to start: only for use in a child process.
+func VerifStartNodeReal(wal consensus.ChainWAL, cl *Cluster) {
+	rs := verifServer(wal, cl, &VerifTransport{})
+	peers, err := rs.makeStartPeers()
+	if err != nil {
+		panic(err)
+	}
+	node := rs.startNode(peers)
+	node.Stop()
 }
